@@ -37,7 +37,10 @@ CONFIGS = [('xml', None), ('xml', 'soft'), ('xml', 'lxml'), ('soap11', None), ('
            ('json', None), ('json', 'soft'), ('yaml', None), ('yaml', 'soft'), ('msgpack', None), ('msgpack', 'soft'), ('msgpackrpc', 'soft'),
            ('httprpc', None), ('httprpc', 'soft')]
 
-HOSTILE = ['\x00', 'a\x08b', '\ud800', '\ufffe', ']]>', '<x>&', 'abc', '', ' ', '1e999', '-1e999', 'NaN', 'INF', '-', '+', '0x10', '9' * 400, '2020-13-01', '2020-02-30', '2020-02-30T00:00:00',
+HOSTILE = ['\x00', 'a\x08b', '\ud800', '\ufffe', ']]>', '<x>&', 'P99999999999Y', 'PT999999999999999999999H', '-P1Y999999999999999D', 'zz', 'abc',
+           '9' * 5000, '-' + '9' * 5000, '1e5000', '1E-5000', '0.' + '0' * 5000 + '1', ' 1', '1 ', '+1', '0x', '1_0', '٣', 'Infinity', '-INF', 'nan',
+           '9999-12-31T23:59:59+14:00', '0001-01-01T00:00:00-14:00', '10000-01-01', '-0001-01-01', '2020-01-01T24:00:00', '00:00:60', 'AA=A', '=AAA', 'AAAAA',
+           'abc', '', ' ', '1e999', '-1e999', 'NaN', 'INF', '-', '+', '0x10', '9' * 400, '2020-13-01', '2020-02-30', '2020-02-30T00:00:00',
            '24:00:00', '25:61:61', 'P', 'PT', 'P1Y', '-P', '!!!', 'AA=', '%%%', '１２', 'true ', 'TRUE', 'null', 'None', '{}', '[]', 'é' * 50,
            '0000-00-00', '12:00', '1.2.3', '1,5', '--1', '00000000-0000-0000-0000-00000000000', 'zzzzzzzz-zzzz-zzzz-zzzz-zzzzzzzzzzzz',
            '2020-01-01T00:00:00+99:99', '2020-01-01T00:00:00.1234567890123Z', 'PT1.5.5S', ' ', 'a' * 5000]
@@ -45,7 +48,8 @@ HOSTILE = ['\x00', 'a\x08b', '\ud800', '\ufffe', ']]>', '<x>&', 'abc', '', ' ', 
 
 # "a well-formed fault document of the OUTPUT protocol": applications whose output protocol differs from the input protocol
 MIXED = [('json', 'soft', 'xml'), ('json', None, 'soap11'), ('yaml', 'soft', 'xml'), ('msgpack', 'soft', 'soap11'), ('httprpc', 'soft', 'xml'),
-         ('json', 'soft', 'msgpack'), ('json', 'soft', 'httprpc'), ('msgpack', None, 'yaml')]
+         ('json', 'soft', 'msgpack'), ('json', 'soft', 'httprpc'), ('msgpack', None, 'yaml'), ('xml', 'lxml', 'httprpc'), ('xml', 'lxml', 'json'),
+         ('soap11', 'lxml', 'json'), ('xml', 'soft', 'msgpack'), ('soap11', 'soft', 'yaml')]
 
 HOSTILE_NAMES = ['\x00', 'op\x08', 'a\x1fb', '\ud800', 'x\udfffy', '\ufffe', '\x7f', 'n' * 5000, '<a>', ']]>', '&amp;', '"', "'", '\xe9',
                  '\U0001d4b3', 'a b', 'a\r\nb', '', '{urn:x}y', '%s', '%(a)s', '{0}']
@@ -81,8 +85,15 @@ class Target(object):
             self.C = c01.Ctx(ir, kind, validator, rng)
             self.B = self.C.B
             self.server = self.C.server
-            self.wsgi = self.C.get_wsgi()
             self.W = self.C.W
+            if outkind:
+                # the same services behind an application whose output protocol is another one
+                inp = c01.make_protocols(kind, validator)[0]
+                app2 = self.B.app(inp, M.make_protocols(outkind, None)[1], name='Mixed%d' % ir['uid'])
+                self.server = ServerBase(app2)
+                self.wsgi = WsgiApplication(app2)
+            else:
+                self.wsgi = self.C.get_wsgi()
         else:
             self.B = gen.Built(ir)
             if kind == 'httprpc':
@@ -423,6 +434,63 @@ def dict_mutants(rng, codec, doc, n):
     return out
 
 
+DEEP = {}
+
+
+def deep_bodies(kind):
+    """documents whose only remarkable feature is their nesting depth"""
+    if kind not in DEEP:
+        if kind == 'json':
+            DEEP[kind] = [b'[' * 100000, b'{"a":' * 30000, b'[' * 5000 + b']' * 5000, b'{"m":' + b'[' * 2000 + b'1' + b']' * 2000 + b'}']
+        elif kind == 'yaml':
+            DEEP[kind] = [b'[' * 20000, b'{a: ' * 5000, b'- ' * 3000 + b'x', b'[' * 500 + b']' * 500]
+        elif kind in ('msgpack', 'msgpackrpc'):
+            DEEP[kind] = [b'\x91' * 100000, b'\x81\xa1a' * 30000, b'\x91' * 2000 + b'\x01', b'\x94\x00\x01\xa1m' + b'\x91' * 3000 + b'\x01']
+        elif kind in ('xml', 'soap11', 'soap12'):
+            DEEP[kind] = [b'<a>' * 50000, b'<a>' * 2000 + b'</a>' * 2000]
+        else:
+            DEEP[kind] = []
+    return DEEP[kind]
+
+
+def raw_mutants(rng, kind, T, struct, tier):
+    """mutants that the encoders of the reference codec cannot spell: literals beyond the interpreter's integer-conversion limit,
+    YAML tags, nulls for the whole message, deep nesting"""
+    out = [('mut:deep', b) for b in deep_bodies(kind)]
+    if kind in ('xml', 'soap11', 'soap12', 'httprpc') or not isinstance(struct, dict):
+        return out
+    from checks.c04 import positions, set_path
+    (mkey, body), = struct.items()
+    codec = T.codec
+    for v in (None, [], 5, 'text', [None], {'': None}):
+        try:
+            out.append(('mut:toplevel_value', codec.dumps({mkey: v})))
+        except Exception:
+            pass
+    pos = [p for p in positions(body) if p]
+    rng.shuffle(pos)
+    big = b'9' * 5000
+    yaml_raw = [b'!!timestamp "x"', b'!!int "x"', b'!!float "x"', b'!!binary "x"', b'!!bool "x"', b'!!python/object:os.system', b'2020-13-45', b'2020-01-01',
+                b'2001-12-14t21:59:43.10-05:00', b'.nan', b'-.inf', b'0o777', b'0x1F', b'1_000', b'~', b'*anchor', b'&a [*a]', b'!!set {a, b}', b'!!omap [a: 1]',
+                b'? [1, 2]\n  : x', b'<<: {a: 1}']
+    for p in pos[:6 if tier == 'quick' else 40]:
+        try:
+            data = codec.dumps({mkey: set_path(body, p, '@@RAW@@')})
+        except Exception:
+            continue
+        if kind == 'json':
+            for raw in (big, b'-' + big, b'1e5000', b'NaN', b'Infinity', b'-Infinity', b'0.' + b'0' * 5000 + b'1', b'1' + b'0' * 400 + b'.5', b'01', b'+1', b'.5', b'1.',
+                        b'"\\ud800"', b'"\\u0000"', b'tru', b"'x'"):
+                out.append(('mut:raw_literal', data.replace(b'"@@RAW@@"', raw)))
+        elif kind == 'yaml':
+            for raw in [big, b'-' + big] + yaml_raw:
+                for q in (b"'@@RAW@@'", b'"@@RAW@@"', b'@@RAW@@'):
+                    if q in data:
+                        out.append(('mut:raw_literal', data.replace(q, raw)))
+                        break
+    return out
+
+
 def query_mutants(rng, path, pairs, n):
     from urllib.parse import quote
     out = []
@@ -438,10 +506,11 @@ def query_mutants(rng, path, pairs, n):
         elif op == 'dup' and ps:
             ps.append(rng.choice(ps))
         elif op == 'unknown':
-            ps.append((rng.choice(('unknown', 'a.b.c', 'x[0]', '[0]', 'p0.', '.p0', 'p0..f')), rng.choice(HOSTILE)))
+            ps.append((rng.choice(('unknown', 'a.b.c', 'x[0]', '[0]', 'p0.', '.p0', 'p0..f', 'v[%s].x' % ('9' * 5000), 'unknown[%s]' % ('9' * 4400))), rng.choice(HOSTILE)))
         elif op == 'index' and ps:
             i = rng.randrange(len(ps))
-            ps[i] = (ps[i][0] + rng.choice(('[0]', '[99999999]', '[-1]', '[x]', '[', '[0][0]')), ps[i][1])
+            ps[i] = (ps[i][0] + rng.choice(('[0]', '[99999999]', '[-1]', '[x]', '[', '[0][0]', '[%s]' % ('9' * 5000), '[%s].x' % ('9' * 5000), '[٣]', '[1e3]', '[0x1]',
+                                            '[ 1]')), ps[i][1])
         elif op == 'path':
             p = rng.choice(('/', '', path + '/', path + '/x', '//', path.upper(), path + '\x08', '/\x00', '/\x7f', '/\xe9', '/op\x1f', path + '%s',
                             '/' + 'n' * 3000, '/<a>', '/]]>'))
@@ -524,6 +593,7 @@ def run(spec, R):
                 muts = xml_mutants(rng, struct, nmut // 3)
             else:
                 muts = dict_mutants(rng, T.codec, struct, nmut // 3)
+            muts += raw_mutants(rng, kind, T, struct, tier)
             for i, (cls, m) in enumerate(muts):
                 process(R, T, m, drivers[i % len(drivers)], cls, repro)
     if len(R.samples) < 2:
